@@ -9,6 +9,7 @@ import (
 	"io"
 	"log"
 	"math/rand"
+	"reflect"
 	"runtime"
 	"strings"
 	"sync"
@@ -303,11 +304,14 @@ func buildHTMLSnapshot(b *htmlBranch, hostile bool, seed int64) (*stack.Snapshot
 	return snap, agg
 }
 
-func renderHTML(b *htmlBranch, hostile bool, seed int64) (string, error, string) {
+func renderHTML(b *htmlBranch, hostile bool, seed int64) (doc string, err error, pan string, mutated bool) {
 	snap, agg := buildHTMLSnapshot(b, hostile, seed)
+	pristine, _ := buildHTMLSnapshot(b, hostile, seed) // the same value, built again
+	defer func() {
+		mutated = !reflect.DeepEqual(pristine.Goroutines, snap.Goroutines)
+	}()
 	var buf bytes.Buffer
-	var err error
-	pan := func() (p string) {
+	pan = func() (p string) {
 		defer func() {
 			if r := recover(); r != nil {
 				p = fmt.Sprint(r)
@@ -320,7 +324,8 @@ func renderHTML(b *htmlBranch, hostile bool, seed int64) (string, error, string)
 		}
 		return ""
 	}()
-	return buf.String(), err, pan
+	doc = buf.String()
+	return
 }
 
 var allowedPrefixes = []string{"https://github.com/", "https://golang.org/pkg/", "https://godoc.org/", "https://pkg.go.dev/", "file:///", "data:image/gif;base64,"}
@@ -329,7 +334,12 @@ func checkHTMLCase(res *Result, hc *htmlCase, idx int, seed int64) {
 	mk := func(aspect, what string, exp, got interface{}) Finding {
 		return Finding{Property: "C17", Aspect: aspect, What: fmt.Sprintf("html case %d %+v: %s", idx, hc.B, what), Case: hc, Expected: exp, Observed: got}
 	}
-	doc, err, pan := renderHTML(&hc.B, true, seed)
+	doc, err, pan, mutated := renderHTML(&hc.B, true, seed)
+	if mutated {
+		f := mk("html-mutates", "rendering as HTML changed the snapshot it was given (compared with the same snapshot built again)", nil, nil)
+		f.Property = "C14"
+		res.violation(f)
+	}
 	if pan != "" {
 		res.violation(mk("panic", "ToHTML panicked: "+pan, nil, pan))
 		f := mk("panic", "ToHTML panicked: "+pan, nil, pan)
@@ -341,7 +351,7 @@ func checkHTMLCase(res *Result, hc *htmlCase, idx int, seed int64) {
 		res.violation(mk("error", fmt.Sprintf("ToHTML failed: %v", err), nil, fmt.Sprint(err)))
 		return
 	}
-	ref, rerr, _ := renderHTML(&hc.B, false, seed)
+	ref, rerr, _, _ := renderHTML(&hc.B, false, seed)
 	if rerr != nil {
 		res.violation(mk("error", fmt.Sprintf("ToHTML failed on harmless strings: %v", rerr), nil, nil))
 		return
